@@ -407,7 +407,8 @@ def rule_order(ctx, F):
                 continue
             n += 1
             # execution order = dominance order of the first write of each field
-            order.sort(key=lambda fd: sum(1 for o in order if o != fd and b.dominates(blocks[o], blocks[fd])))
+            rpo = b.rpo()
+            order.sort(key=lambda fd: rpo.get(blocks[fd], 1 << 30))
             idx = [fields.index(fd) for fd in order]
             ctx.ob(R, b, "fields written in declaration order", idx == sorted(idx),
                    "%s::%s writes the fields in the order %s but the struct declares %s: the parsers of the new codec "
